@@ -81,7 +81,7 @@ impl<'a> IntoIterator for &'a Cfg {
 /// The members of a node set in the order of their source positions, so that
 /// walks over the graph do not depend on the iteration order of hash sets.
 #[allow(clippy::mutable_key_type)]
-pub(crate) fn in_source_order(set: &HashSet<Rc<CfgNode>>) -> Vec<Rc<CfgNode>> {
+pub fn in_source_order(set: &HashSet<Rc<CfgNode>>) -> Vec<Rc<CfgNode>> {
     let mut nodes = set.iter().cloned().collect::<Vec<_>>();
     nodes.sort_by_key(|node| {
         let range = node.range();
